@@ -172,22 +172,30 @@ func verify(p *lua.FunctionProto, strConsts func(*lua.FunctionProto) []string, p
 		}
 		reg(pc, what, v)
 		st.RKConst++
-		ok := false
-		for q := pc - 1; q >= 0 && q >= pc-3; q-- {
+		// the nearest earlier instruction that writes register v must be a LOADK of a string constant (that is how a
+		// constant beyond index 255 reaches a string-keyed instruction); when no writer is found nearby no verdict
+		for q := pc - 1; q >= 0 && q >= pc-2000; q-- {
 			if cont[q] {
 				continue
 			}
-			if opcode(code[q]) == lua.OP_LOADK && argA(code[q]) == v {
-				if k := argBx(code[q]); k < len(p.Constants) {
-					if _, isS := p.Constants[k].(lua.LString); isS {
-						ok = true
+			w := code[q]
+			if argA(w) != v {
+				continue
+			}
+			switch opcode(w) {
+			case lua.OP_LOADK:
+				if k := argBx(w); k < len(p.Constants) {
+					if _, isS := p.Constants[k].(lua.LString); !isS {
+						bad(pc, "%s is register %d, loaded at pc=%d with a constant that is not a string", what, v, q)
 					}
 				}
-				break
+				return
+			case lua.OP_MOVE, lua.OP_MOVEN, lua.OP_LOADBOOL, lua.OP_LOADNIL, lua.OP_GETUPVAL, lua.OP_GETGLOBAL, lua.OP_GETTABLE, lua.OP_GETTABLEKS,
+				lua.OP_NEWTABLE, lua.OP_ADD, lua.OP_SUB, lua.OP_MUL, lua.OP_DIV, lua.OP_MOD, lua.OP_POW, lua.OP_UNM, lua.OP_NOT, lua.OP_LEN,
+				lua.OP_CONCAT, lua.OP_CLOSURE:
+				bad(pc, "%s is register %d, last written at pc=%d by opcode %d, not by a LOADK of a string constant", what, v, q, opcode(w))
+				return
 			}
-		}
-		if !ok {
-			bad(pc, "%s is register %d but no preceding LOADK puts a string constant there", what, v)
 		}
 	}
 	target := func(pc int, what string, t int) {
